@@ -38,6 +38,25 @@ func (i *interpreter) noteStore(p *value) {
 	}
 }
 
+func (i *interpreter) noteMapWrite(m *omap) {
+	if i.frozenMaps != nil {
+		if _, bad := i.frozenMaps[m]; bad {
+			panic(pathAbort{kind: abortAssertFail, msg: "write to a frozen (shared) map at " + i.whereAmI()})
+		}
+	}
+}
+
+// noteAppend traps an append that would write into the spare capacity of a
+// frozen slice's backing array.
+func (i *interpreter) noteAppend(s []value) {
+	if i.frozenLocal != nil && len(s) < cap(s) {
+		full := s[:cap(s)]
+		if _, bad := i.frozenLocal[&full[len(s)]]; bad {
+			panic(pathAbort{kind: abortAssertFail, msg: "append into the spare capacity of a frozen (shared) slice at " + i.whereAmI()})
+		}
+	}
+}
+
 func (i *interpreter) indexString(s string, idx value) value {
 	return s[i.concretizeIndex(idx, len(s), "string")]
 }
@@ -956,7 +975,9 @@ func ext۰sync۰Map۰Load(fr *frame, args []value) value {
 }
 
 func ext۰sync۰Map۰Store(fr *frame, args []value) value {
-	fr.i.noteStore(args[0].(*value))
+	// sync.Map is the one structure designed for shared mutation: it is
+	// exempt from the frozen-store trap (its transparency is checked
+	// separately by the history-independence harnesses)
 	m := fr.i.syncMap(args[0].(*value))
 	m.insert(fr.i, args[1], args[2])
 	return nil
